@@ -57,7 +57,7 @@ Lemma arith_IsInPlaintextRange N n :
   = Some (match N, n with Some N, Some z => in_plaintext N z | _, _ => false end).
 Proof.
   intros HN. destruct N as [N|], n as [z|]; try reflexivity.
-  cbv [geval alookup String.eqb Ascii.eqb Bool.eqb go_arith_IsInPlaintextRange env_plaintext is_none orb negb].
+  cbv [geval alookup String.eqb Ascii.eqb Bool.eqb go_arith_IsInPlaintextRange env_plaintext is_none orb negb onz].
   unfold in_plaintext. destruct (Cbor.bitlen N <? truelen z) eqn:E.
   - symmetry. f_equal. apply Z.leb_gt. apply Z.ltb_lt. apply (truelen_gt_bitlen N z HN E).
   - f_equal. rewrite Z.leb_antisym. reflexivity.
@@ -66,7 +66,7 @@ Qed.
 Lemma arith_IsInPlaintextRange_trace_ok :
   go_arith_IsInPlaintextRange_trace =
   [ "if N == nil || n == nil -> return false";
-    "if n.TrueLen() > N.BitLen() -> return false";
+    "if !hasBoundedAnnouncedLen(n) || n.TrueLen() > N.BitLen() -> return false";
     "do nHalf := new(saferith.Nat).SetNat(N.Nat())";
     "do nHalf.Rsh(nHalf, 1, -1)";
     "do gt, _, _ := n.Abs().Cmp(nHalf)";
